@@ -7,7 +7,7 @@ import os
 import re
 
 from . import mirq
-from .core import VERIF, norm_path
+from .core import VERIF, norm_path, walk
 
 PANICKY_STD = (
     "std::option::Option::unwrap", "std::option::Option::expect",
@@ -53,6 +53,28 @@ def outer_panic_macro(m):
     return m.split("<")[-1]
 
 
+_SNIP = {}
+
+
+def _macro_message(body, line):
+    """Formatted panic messages are not constants in MIR; take the first string literal of the macro call's source
+    snippet (recorded by the driver on the expansion's HIR node), whitespace-normalised."""
+    key = id(body)
+    if key not in _SNIP:
+        tab = {}
+        for n in walk(body.get("hir") or {}):
+            src = n.get("src")
+            if src and n.get("l") is not None and n.get("m") and "panic" in str(n.get("m")):
+                tab.setdefault(n["l"], src)
+        _SNIP[key] = tab
+    src = _SNIP[key].get(line, "")
+    m = re.search(r'"((?:[^"\\]|\\.)*)"', src, re.S)
+    if not m:
+        return ""
+    txt = re.sub(r"\\\s*\n\s*", "", m.group(1))
+    return re.sub(r"\s+", " ", txt).strip()
+
+
 def sites_of(body):
     """Panicking sites in one function body (MIR), reachable blocks only."""
     out = []
@@ -79,6 +101,8 @@ def sites_of(body):
                     if isinstance(a, dict) and isinstance(a.get("c"), str):
                         msg = a["c"].strip('"')
                         break
+                if not msg:
+                    msg = _macro_message(body, t["l"])
                 out.append({"kind": "panic:%s" % mac, "detail": msg[:90], "line": t["l"], "msg": msg})
             elif is_panicky_std(c):
                 short = c
